@@ -138,4 +138,36 @@ pub fn run() {
         ticker.shutdown();
     }
     line("shard_index", J::A(sh));
+
+    // what the two builders accept (a panic = rejected): grids around every boundary
+    let hook = std::panic::take_hook();
+    std::panic::set_hook(Box::new(|_| {}));
+    let mut cfgs = Vec::new();
+    for counters in [0u64, 1, 16] { for capacity in [0usize, 1, 16] { for weight in [-1i64, 0, 1, 100] {
+        for pool in [0usize, 1, 2] { for buffer in [0usize, 1] { for queue in [0usize, 1] { for shards in [0usize, 1, 2, 3, 4, 6, 8, 12, 16] {
+            let ok = std::panic::catch_unwind(|| {
+                let _ = tinylfu_cached::cache::config::ConfigBuilder::<u64, u64>::new(counters, capacity, weight)
+                    .access_pool_size(pool).access_buffer_size(buffer).command_buffer_size(queue).shards(shards).build();
+            }).is_ok();
+            cfgs.push(J::A(vec![J::I(counters as i128), J::I(capacity as i128), J::I(weight as i128), J::I(pool as i128), J::I(buffer as i128),
+                                J::I(queue as i128), J::I(shards as i128), J::Bool(ok)]));
+        }}}}
+    }}}
+    line("config_accepted", J::A(cfgs));
+    let mut ups = Vec::new();
+    for value in [None, Some(7u64)] { for weight in [None, Some(-1i64), Some(0), Some(1), Some(5)] {
+        for ttl in [None, Some(0u64), Some(5_000_000_000)] { for rm in [false, true] {
+            let ok = std::panic::catch_unwind(|| {
+                let mut b = tinylfu_cached::cache::put_or_update::PutOrUpdateRequestBuilder::<u64, u64>::new(1);
+                if let Some(v) = value { b = b.value(v); }
+                if let Some(w) = weight { b = b.weight(w); }
+                if let Some(t) = ttl { b = b.time_to_live(Duration::from_nanos(t)); }
+                if rm { b = b.remove_time_to_live(); }
+                let _ = b.build();
+            }).is_ok();
+            ups.push(J::A(vec![J::I(value.map(|v| v as i128).unwrap_or(-1)), J::I(weight.map(|w| w as i128).unwrap_or(-99)), J::I(ttl.map(|t| t as i128).unwrap_or(-1)), J::Bool(rm), J::Bool(ok)]));
+        }}
+    }}
+    line("upsert_accepted", J::A(ups));
+    std::panic::set_hook(hook);
 }
